@@ -633,7 +633,7 @@ TreeAlphabet palette(int p, const std::vector<int> &vals, int levels) {
   return a;
 }
 // depth-3 alphabet: two contents per level, all names <= 255 bytes, all values non-empty
-TreeAlphabet depth3_alphabet() {
+TreeAlphabet depth3_alphabet(bool full) {
   TreeAlphabet a;
   RNode e;
   RNode l0 = e, l1 = e, l2 = e, l3 = e;
@@ -642,6 +642,7 @@ TreeAlphabet depth3_alphabet() {
   l2.entries["b"] = V_INTARR;
   l3.entries[""] = V_DOUBLE;
   a.contents = {{e, l0}, {e, l1}, {e, l2}, {e, l3}};
+  if (!full) a.contents[2] = {l2};  // level-2 nodes always hold their entry: 80 802 trees instead of 1 045 458
   a.names = {{"a", "b"}, {"", "a"}, {name_of(N_BIN), name_of(N_X255)}, {"", ""}};
   return a;
 }
@@ -688,8 +689,8 @@ int main(int argc, char **argv) {
       "complete products of smaller alphabets: focus_L<l>_p<pl>: chain of depth l ('a' -> 'a' ..., entry 'a' on every level) whose last node takes "
       "EVERY entry set (<= 2 entries, 6 names x value list) x EVERY child-name set (<= 2 leaf children, 6 names), placed as geometry root (p0), as "
       "attribute block of an existing id (p1) or of a non-existing id 300 next to a second block (p2); trees_d2_pal<p>: ALL trees of depth <= 2 over 3 "
-      "node contents and 2 child names of palette p (6 palettes rotate through all names and values); trees_d3: ALL 1 045 458 trees of depth <= 3 over 2 "
-      "contents per level and 2 child names per level; attmeta_k<n>: ALL lists of 0..2 attribute blocks with ids from {0, 3 existing; 1, 300 missing} "
+      "node contents and 2 child names of palette p (6 palettes rotate through all names and values); trees_d3: ALL 80 802 trees of depth <= 3 over 2/2/1/2 "
+      "contents per level and 2 child names per level under ASan, and ALL 1 045 458 trees over 2 contents on every level in the -O2 part (fast_trees_d3_full); attmeta_k<n>: ALL lists of 0..2 attribute blocks with ids from {0, 3 existing; 1, 300 missing} "
       "(duplicates allowed) and block trees from the n trees of depth <= 1 over palette 0, x {empty root, plain root}",
       "quick = focus levels 0..2 (depth <= 2 plus leaf children), placement 0 full, placements 1/2 with entry sets only; thorough adds level 3 and "
       "the full product for every placement, trees_d3 and attmeta_k48",
@@ -717,9 +718,12 @@ int main(int argc, char **argv) {
     const TreeAlphabet a = palette(p, VV, 2);
     add(R, px + "trees_d2_pal" + std::to_string(p), count_trees(a, 0, 2), true, true, [=](uint64_t idx) { return place(unrank_tree(a, 0, 2, idx), 0); });
   }
+  {
+    // ASan part: 80 802 trees (2,2,1,2 contents per level); -O2 part: all 1 045 458 trees (2 contents on every level)
+    const TreeAlphabet a3 = depth3_alphabet(fast);
+    add(R, fast ? "fast_trees_d3_full" : "trees_d3", count_trees(a3, 0, 3), false, true, [=](uint64_t idx) { return place(unrank_tree(a3, 0, 3, idx), 0); });
+  }
   if (!fast) {
-    const TreeAlphabet a3 = depth3_alphabet();
-    add(R, "trees_d3", count_trees(a3, 0, 3), false, true, [=](uint64_t idx) { return place(unrank_tree(a3, 0, 3, idx), 0); });
     // attribute-metadata lists
     for (int big = 0; big < 2; ++big) {
       TreeAlphabet a = palette(0, V6, 1);
